@@ -8,6 +8,7 @@ scenarios:
   klimit     two requests back to back (run under `taskset -c 0` so that
              available_parallelism() == 1 and the ConcurrencyLayer limit is 1)
   control    didOpen then one request
+  two-changes  a didChange with two full-text content changes (the second is the final text)
   dotdot     a.td contains `include "sub/../a.td"` (a self-include spelled through ".."),
              sub/ exists; didOpen a.td then one request
 Prints ANSWERED or HUNG.
@@ -57,6 +58,20 @@ def main():
     change = {"jsonrpc": "2.0", "method": "textDocument/didChange", "params": {"textDocument": {"uri": uri, "version": 2}, "contentChanges": [{"text": text2}]}}
     sym = lambda i: {"jsonrpc": "2.0", "id": i, "method": "textDocument/documentSymbol", "params": {"textDocument": {"uri": uri}}}
     wait_for = []
+    if scenario == "two-changes":
+        # one didChange with two full-text content changes: the document's text is the second
+        ch = {"jsonrpc": "2.0", "method": "textDocument/didChange", "params": {"textDocument": {"uri": uri, "version": 2}, "contentChanges": [{"text": "class First;\n"}, {"text": "class Second;\n"}]}}
+        open_["params"]["textDocument"]["text"] = "class Zero;\n"
+        p.stdin.write(frame(open_) + frame(ch) + frame(sym(2))); p.stdin.flush()
+        t0 = time.time()
+        while 2 not in got and time.time() - t0 < timeout:
+            time.sleep(0.05)
+        names = [s_["name"] for s_ in (got.get(2, {}).get("result") or [])]
+        ok = names == ["Second"]
+        print("outline after the two-change notification: %s (%s)" % (names, "the last change counts: ok" if ok else "WRONG, the document's text is `class Second;`"))
+        p.kill()
+        import shutil; shutil.rmtree(d, ignore_errors=True)
+        return 0 if ok else 1
     if scenario == "dotdot-buffer":
         # b.td is open with a buffer that differs from disk; a.td reaches it through ".."
         os.makedirs(os.path.join(d, "sub"), exist_ok=True)
